@@ -9,38 +9,16 @@
      pyteal/ast/nonce.py     Nonce(base, nonce, e) = Seq([Pop(Bytes(base, nonce)), e])
      pyteal/ast/pragma.py    Pragma(e, compiler_version=...) lowers exactly as e (satisfied constraint)
      pyteal/compiler/subroutines.py:279-283 + flatten.py:137-153 + ir/teallabel.py:21-23
-                             label = name with every character outside A-Za-z0-9 removed, then _ and the index; header = newline, // name, newline, label:
+                             label = name with every character outside A-Za-z0-9 removed, then _ and the index; header = newline, one `// line` + newline per line of name.splitlines() (or one empty line), label:  (since /repo 3627216)
 
    ASSUMPTION (alphabet): strings are sequences of code points below 256 (latin-1), as everywhere in
    this development.  Python's str.splitlines() additionally breaks at U+2028 and U+2029; those code
    points are outside the model's alphabet and are exercised on the real code only (harness/c18.py). *)
 From Coq Require Import List Arith NArith Ascii String Bool.
+From PV Require Export Comp.SplitLines.
 From PV Require Import Base.Bytes Base.Sexp AVM.Syntax AVM.Parse Src.Expr Comp.Assemble Comp.Compile.
 Import ListNotations.
 Local Open Scope string_scope.
-
-(* ---- str.splitlines() on code points < 256 ----
-   line boundaries: \n \r \r\n \v \f \x1c \x1d \x1e \x85; no empty last line *)
-Definition is_linebreak (c : ascii) : bool :=
-  match N_of_ascii c with
-  | 10%N | 11%N | 12%N | 13%N | 28%N | 29%N | 30%N | 133%N => true
-  | _ => false
-  end.
-
-Fixpoint splitlines_l (s cur : list ascii) : list string :=
-  match s with
-  | [] => match cur with [] => [] | _ => [str_of cur] end
-  | c :: t =>
-      if is_linebreak c then
-        str_of cur ::
-        match t with
-        | c2 :: t2 => if Ascii.eqb c (chr 13) && Ascii.eqb c2 (chr 10) then splitlines_l t2 [] else splitlines_l t []
-        | [] => splitlines_l t []
-        end
-      else splitlines_l t (c :: cur)
-  end.
-
-Definition splitlines (s : string) : list string := splitlines_l (list_ascii_of_string s) [].
 
 (* ---- the annotation constructors ---- *)
 Definition comment_expr (line : string) : expr := EOp O_comment [AStr line] TNone [].
